@@ -22,8 +22,8 @@ CONTRACTS["model:Parameter.update#scalar_no_deps"] = dict(
     ensures=[
         ("C06.no_function_or_aggregated_parameter_is_left_alone", "implies(not has_fcn or has_agg, self.vals[ti] == old(self.vals[ti]) and self._dx == old(self._dx))"),
         ("C06+C09.function_is_not_evaluated_inside_the_skip_window", "implies(%s, self.vals[ti] == old(self.vals[ti]) and self._dx == old(self._dx))" % _in_window),
-        ("C06.value_is_scale_factor_times_function", "implies(%s and not self.derivative, self.vals[ti] == self.scale_factor * fval and self._dx == old(self._dx))" % _evaluated),
-        ("C06.derivative_parameter_stores_the_rate", "implies(%s and self.derivative, self._dx == self.scale_factor * fval and self.vals[ti] == old(self.vals[ti]))" % _evaluated),
+        ("C06+C09.value_is_scale_factor_times_function", "implies(%s and not self.derivative, self.vals[ti] == self.scale_factor * fval and self._dx == old(self._dx))" % _evaluated),
+        ("C06+C09.derivative_parameter_stores_the_rate", "implies(%s and self.derivative, self._dx == self.scale_factor * fval and self.vals[ti] == old(self.vals[ti]))" % _evaluated),
     ],
     frame_props=["C06"], defined_props=["C06"])
 
